@@ -5,6 +5,7 @@ C08 — decoded quantities stay in their physical range for every accepted frame
 text; every reader has a lemma, over the FULL code space of its fields, that what it returns obeys
 the table (`read_rangeGood`, `Proofs/Decode/BdsNN.lean`); this file states the composition.
 -/
+import Rs1090.Proofs.Decode.GenBds
 import Rs1090.Proofs.Decode.AllGood
 import Rs1090.Props.C01
 import Rs1090.Proofs.F64Track09
@@ -128,5 +129,98 @@ theorem hidden_state_reviewed :
     Gen.HiddenState.sitesIn Rs1090.Props.C01.decoderFiles =
       [("decode/mod.rs", "static CONFIG:OnceCell<SerializeConfig>=OnceCell::new();")] :=
   Rs1090.Props.C01.hidden_state_reviewed
+
+
+/-! ### the hand-written conversion functions ARE the Rust readers (translated on every run)
+
+`Gen/BdsFns.lean` is regenerated from `fn read_*` of bds50.rs / bds60.rs by gen/extractors/bdsfns.py (statement by
+statement: checked integer arithmetic, f64 as exact rationals); `Proofs/Decode/GenBds.lean` enumerates every code.
+A behavioural edit of a reader fails the obligation below that names it (the offending codes:
+`#eval Rs1090.Proofs.GenBds.disagreements`); a rewrite that keeps the values does not. -/
+
+open Rs1090.Proofs.GenBds in
+/-- **BDS 5,0: `read_roll`, `read_track`, `read_groundspeed`, `read_rate` are the model's `roll`, `track`,
+    `groundspeed`, `rate` composed with their scales** (45/256°, 1/512°, kt, 1/256 °/s), on EVERY value of the bits
+    read (2^11, 2^12, 2^11, 2^11 codes) and, for the track rate, every roll angle `n·45/256` or none. -/
+theorem bds50_readers_as_modelled :
+    (∀ s g v, g < 2 ^ 1 → v < 2 ^ 9 →
+      Gen.BdsFns.Bds50.read_roll s g v = scaled 45 256 (Model.Bds50.roll s g v)) ∧
+    (∀ s g v, g < 2 ^ 1 → v < 2 ^ 10 →
+      Gen.BdsFns.Bds50.read_track s g v = scaled 1 512 (Model.Bds50.track s g v)) ∧
+    (∀ s v, v < 2 ^ 10 →
+      Gen.BdsFns.Bds50.read_groundspeed s v = Model.Bds50.groundspeed s v) ∧
+    (∀ (n : Option Int) s g v, g < 2 ^ 1 → v < 2 ^ 9 →
+      Gen.BdsFns.Bds50.read_rate (n.map rollVal) s g v = scaled 1 256 (Model.Bds50.rate n s g v)) :=
+  Rs1090.Proofs.GenBds.bds50_readers
+
+open Rs1090.Proofs.GenBds in
+/-- **BDS 6,0: `read_heading`, `read_ias`, `read_mach`, `read_vertical` are the model's `heading` (1/512°), `ias`,
+    `mach` (code/250; exact-rational reading of `value as f64 * 2.048 / 512.`), `vertical`** on every value of the bits
+    read (2^12, 2^11, 2^11, 2^11 codes) and, for Mach, every airspeed (any natural number) or none. -/
+theorem bds60_readers_as_modelled :
+    (∀ s g v, g < 2 ^ 1 → v < 2 ^ 10 →
+      Gen.BdsFns.Bds60.read_heading s g v = scaled 1 512 (Model.Bds60.heading s g v)) ∧
+    (∀ s v, v < 2 ^ 10 →
+      Gen.BdsFns.Bds60.read_ias s v = Model.Bds60.ias s v) ∧
+    (∀ (i : Option Nat) s v, v < 2 ^ 10 →
+      Gen.BdsFns.Bds60.read_mach i s v = scaledN 1 250 (Model.Bds60.mach i s v)) ∧
+    (∀ s g v, g < 2 ^ 1 → v < 2 ^ 9 →
+      Gen.BdsFns.Bds60.read_vertical s g v = Model.Bds60.vertical s g v) :=
+  Rs1090.Proofs.GenBds.bds60_readers
+
+/- Full statement for `read_tas`, which takes the DECODED ground speed (not proved: 301 × 2^11 kernel evaluations
+   at ~2 ms each; `fn read_tas` therefore stays digest-pinned):
+     ∀ gs, (gs = none ∨ ∃ k ≤ 300, gs = some (2 * k)) → ∀ s v, v < 2 ^ 10 →
+        Gen.BdsFns.Bds50.read_tas gs s v = Model.Bds50.tas gs s v                                                   -/
+
+open Rs1090.Proofs.GenBds in
+/-- `read_tas` is the model's `tas` on all 2^11 codes for the ground speeds of `tasGs` (absent, and the values
+    around every threshold of the cross-check) -/
+theorem bds50_read_tas_as_modelled_partial : ∀ gs ∈ tasGs, ∀ s v, v < 2 ^ 10 →
+    Gen.BdsFns.Bds50.read_tas gs s v = Model.Bds50.tas gs s v :=
+  Rs1090.Proofs.GenBds.bds50_tas_sampled
+
+/-- the layouts the model's `read` functions use (`flag`, `bits 1`, `bits 9|10`) are the reads of the Rust readers -/
+theorem bds_reader_layouts :
+    Gen.BdsFns.Bds50.read_roll_layout = [("bool", 1), ("u8", 1), ("u16", 9)] ∧
+    Gen.BdsFns.Bds50.read_track_layout = [("bool", 1), ("u8", 1), ("u16", 10)] ∧
+    Gen.BdsFns.Bds50.read_groundspeed_layout = [("bool", 1), ("u16", 10)] ∧
+    Gen.BdsFns.Bds50.read_rate_layout = [("bool", 1), ("u8", 1), ("u16", 9)] ∧
+    Gen.BdsFns.Bds50.read_tas_layout = [("bool", 1), ("u16", 10)] ∧
+    Gen.BdsFns.Bds60.read_heading_layout = [("bool", 1), ("u8", 1), ("u16", 10)] ∧
+    Gen.BdsFns.Bds60.read_ias_layout = [("bool", 1), ("u16", 10)] ∧
+    Gen.BdsFns.Bds60.read_mach_layout = [("bool", 1), ("u16", 10)] ∧
+    Gen.BdsFns.Bds60.read_vertical_layout = [("bool", 1), ("u8", 1), ("u16", 9)] := by decide
+
+/-- the hypotheses are satisfiable and the readers do return values there -/
+example : Gen.BdsFns.Bds50.read_roll true 1 500 = .ok (some (-135 / 64 : Rat)) := by decide +kernel
+example : Gen.BdsFns.Bds50.read_rate (some (Rs1090.Proofs.GenBds.rollVal 12)) true 0 4 = .ok (some (1 / 8 : Rat)) := by
+  decide +kernel
+example : Gen.BdsFns.Bds50.read_rate (some (Rs1090.Proofs.GenBds.rollVal (-12))) true 0 4 = .err .assertion := by
+  decide +kernel
+
+
+open Rs1090.Proofs.GenBds in
+/-- **BDS 4,0: `read_selected` (both selected altitudes) and `read_qnh` are the model's `selectedAlt` and `qnhNum`
+    (tenths of hPa; `value as f64 * 0.1 + 800.` read exactly)** on all 2^13 codes each. -/
+theorem bds40_readers_as_modelled :
+    (∀ s v, v < 2 ^ 12 → Gen.BdsFns.Bds40.read_selected s v = Model.Bds40.selectedAlt s v) ∧
+    (∀ s v, v < 2 ^ 12 → Gen.BdsFns.Bds40.read_qnh s v = scaledN 1 10 (Model.Bds40.qnhNum s v)) :=
+  Rs1090.Proofs.GenBds.bds40_readers
+
+open Rs1090.Proofs.GenBds in
+/-- **BDS 4,4: `read_pressure` and `read_humidity` are the model's `pressure` and `humidity` (value·100 over 64)** on
+    all 2^12 / 2^7 codes (the other four readers of bds44.rs use `match` / a second read and are still digest-pinned). -/
+theorem bds44_readers_as_modelled :
+    (∀ s v, v < 2 ^ 11 → Gen.BdsFns.Bds44.read_pressure s v = Model.Bds44.pressure s v) ∧
+    (∀ s v, v < 2 ^ 6 → Gen.BdsFns.Bds44.read_humidity s v = scaledN 1 64 (Model.Bds44.humidity s v)) :=
+  Rs1090.Proofs.GenBds.bds44_readers
+
+/-- their layouts -/
+theorem bds40_44_reader_layouts :
+    Gen.BdsFns.Bds40.read_selected_layout = [("bool", 1), ("u16", 12)] ∧
+    Gen.BdsFns.Bds40.read_qnh_layout = [("bool", 1), ("u16", 12)] ∧
+    Gen.BdsFns.Bds44.read_pressure_layout = [("bool", 1), ("u16", 11)] ∧
+    Gen.BdsFns.Bds44.read_humidity_layout = [("bool", 1), ("u8", 6)] := Rs1090.Proofs.GenBds.bds40_44_layouts
 
 end Rs1090.Props.C08
